@@ -75,6 +75,28 @@ CHECKS = {
              "(Orbax saves to a scratch directory that the check removes).",
         ref="DESIGN.md §5 C20",
     ),
+    "C01": dict(
+        technique="runtime monitoring: offline checker over the totally ordered "
+                  "event log (recording scripted environment, recording buffer "
+                  "subclasses, rebound acting/update routines, jax.debug.callback "
+                  "for traced acting observations) of real training runs",
+        text="Exploration. Every training routine is run for 40-120 steps on a "
+             "scripted recording environment whose observations encode (env, "
+             "episode, t); each transition handed over for learning and each "
+             "observation a policy/planner is conditioned on is compared with "
+             "the environment log entry of the same step.",
+        ref="DESIGN.md §5 C01",
+    ),
+    "C11": dict(
+        technique="runtime monitoring: environment-log counting against a "
+                  "per-routine contract table, StepAfterEnd trap in the "
+                  "environment, parameter snapshots at every step for the warm-up "
+                  "clause, recording task selectors, D-UCB recomputation oracle",
+        text="Exploration over budgets, starting counts, episode limits, scripts "
+             "and schedulers; the oracle counts reset/step events of a recording "
+             "environment that raises when stepped after an episode end.",
+        ref="DESIGN.md §5 C11",
+    ),
 }
 
 NOT_YET = {}
